@@ -38,14 +38,17 @@ class _Undefined:
 def _decode_unicode_escapes(s: str) -> str:
     # The "unicode-escape" codec decodes bytes as Latin-1, so non-ASCII
     # characters are written as escape sequences first or they'd be mangled.
-    return (
-        codecs.decode(
-            s.replace("\\/", "/").encode("latin-1", "backslashreplace"),
-            "unicode-escape",
+    try:
+        return (
+            codecs.decode(
+                s.replace("\\/", "/").encode("latin-1", "backslashreplace"),
+                "unicode-escape",
+            )
+            .encode("utf-16", "surrogatepass")
+            .decode("utf-16")
         )
-        .encode("utf-16", "surrogatepass")
-        .decode("utf-16")
-    )
+    except UnicodeError as err:
+        raise JSONPointerError(f"invalid escape sequence, {err}") from err
 
 
 UNDEFINED = _Undefined()
